@@ -1432,7 +1432,7 @@ class ChunkGen:
                     if rng.random() < 0.15:
                         sargs.append(lit(''))
                     else:
-                        sargs.append(lit(' '.join(self.plain_word() for _ in range(rng.randint(1, 2)))))
+                        sargs.append(lit(rng.choice(['', '', ' ']) + ' '.join(self.plain_word() for _ in range(rng.randint(1, 2))) + rng.choice(['', '', ' ', '  '])))
         return N('call', name=d.name, defn=d, iargs=iargs, sargs=sargs)
 
     # --------------------------------------------------------------- statements (state-changing)
@@ -1591,6 +1591,19 @@ class ChunkGen:
             body = N('seq', items=[lit(rng.choice(['<', '[', 'r=', '*', '']))] + items + [lit(rng.choice(['>', ']', '.', '*']))])
             if body.items[0].s == '' and items[0].k in ('lit', 'space', 'chr', 'str', 'var', 'par', 'seq', 'if', 'map', 'for', 'foreach', 'format', 'call'):
                 body.items[0] = lit('=')
+            if flags & 2 and rng.random() < 0.6:
+                # 'strip leading and trailing whitespace from the output of the defined macro': give the output real edge spaces
+                def edge():
+                    sp_ = [p for p in self.params if p[1] == 's']
+                    if sp_ and rng.random() < 0.5:
+                        return N('par', name=rng.choice(sp_)[0], skind='s')
+                    c, _ = self.gen_cmp(0)
+                    return N('if', e=c, t=lit(rng.choice([' yes ', ' on', 'y  '])), f=lit(rng.choice([' no ', 'off ', '  n'])))
+                if rng.random() < 0.7:
+                    body.items.insert(0, edge())
+                if rng.random() < 0.7:
+                    body.items.append(edge())
+                self.features.add('DEF-strip-edges')
         self.params = []
         self.loops = saved_loops
         self.in_def = None
